@@ -24,8 +24,8 @@ import (
 	vstat "verifstat"
 )
 
-var fileNames = []string{"a.txt", "b.bin", "data", "x y.txt", "ünï.txt", ".hidden", "_under", "z.json", "UPPER.TXT", "a-b", "a.b.d", "q.txt", "r.txt", "a", "a0", "A"}
-var dirNames = []string{"d", "sub", "d.e", "_ud", ".hd", "a", "d-", "d0", "D"}
+var fileNames = []string{"a.txt", "b.bin", "data", "x y.txt", "ünï.txt", ".hidden", "_under", "z.json", "UPPER.TXT", "a-b", "a.b.d", "q.txt", "r.txt", "a", "a0", "B"}
+var dirNames = []string{"d", "sub", "d.e", "_ud", ".hd", "a", "d-", "d0", "E"}
 
 var sizes = []int{0, 0, 1, 2, 3, 7, 8, 9, 15, 16, 17, 31, 32, 33, 63, 64, 65, 255, 256, 257, 1023, 1024, 4095, 4096, 4097, 65537}
 
